@@ -77,7 +77,7 @@ where
             self.ggsw_keyswitch_tmp_bytes_default(res, a, key, tsk)
         );
 
-        for row in 0..a.dnum().into() {
+        for row in 0..res.dnum().into() {
             self.glwe_keyswitch(&mut res.at_mut(row, 0), &a.at(row, 0), key, scratch);
         }
 
